@@ -747,20 +747,32 @@ func checkC17(c *Ctx) {
 		}
 		c.R.Fn(c.fname(h))
 		bad := ""
-		for _, cl := range core.CallsIn(h) {
-			if cl.Builtin() != "" {
-				continue
-			}
-			full := ""
-			if cl.Obj != nil && cl.Obj.Pkg() != nil {
-				full = cl.Obj.Pkg().Path() + "." + cl.Obj.Name()
-			}
-			switch full {
-			case "bytes.Join", "strings.Join", "fmt.Sprintf", "bytes.NewBuffer":
-			default:
+		var scan func(g *ssa.Function, depth int)
+		scan = func(g *ssa.Function, depth int) {
+			for _, cl := range core.CallsIn(g) {
+				if cl.Builtin() != "" {
+					continue
+				}
+				full := ""
+				if cl.Obj != nil && cl.Obj.Pkg() != nil {
+					full = cl.Obj.Pkg().Path() + "." + cl.Obj.Name()
+				}
+				switch full {
+				case "bytes.Join", "strings.Join", "fmt.Sprintf", "bytes.NewBuffer":
+					continue
+				}
+				// a helper of the same package that computes a length (mountPointPrefixLen(mp)): returns an integer
+				// and is itself verbatim
+				if cl.Static != nil && cl.Static.Package() == h.Package() && depth > 0 && len(cl.Static.Blocks) > 0 && cl.Static.Signature.Results().Len() == 1 {
+					if bt, ok := cl.Static.Signature.Results().At(0).Type().Underlying().(*types.Basic); ok && bt.Info()&types.IsInteger != 0 {
+						scan(cl.Static, depth-1)
+						continue
+					}
+				}
 				bad = "the helper calls " + full + ": names are no longer prefixed / trimmed verbatim (e.g. path cleaning resolves '..' levels and lets a client escape its mount point)"
 			}
 		}
+		scan(h, 2)
 		ru4.Check(bad == "", "verbatim "+name, c.where(h, h), "builtins only", bad)
 	}
 
